@@ -519,7 +519,7 @@ func verifH_X_std() {
 	x := verifI64("x")
 	s := verifString("s", 2)
 	bs := verifBytes("bs", 2)
-	if item >= 25 && item <= 27 {
+	if (item >= 25 && item <= 27) || item == 37 {
 		// printable ASCII keeps the symbolic string items inside the engine's exact range
 		for i := 0; i < 2; i++ {
 			verifAssume(s[i] >= 32 && s[i] < 127)
